@@ -1,9 +1,9 @@
 SPECIFICATION MSpec
 CONSTANTS
- DescPlatStrict = FALSE
+ DescPlatStrict = TRUE
  PlatLookupStrict = FALSE
  ReadFaults = FALSE
- EqualAnnStrict = FALSE
+ EqualAnnStrict = TRUE
  PutFirst = TRUE
  DedupByDigest = FALSE
  DeleteKeepsOne = FALSE
